@@ -23,7 +23,7 @@ from harness.props import c02
 
 PROP = "C10"
 TFCOLS = ["a", "b"]
-VALS = {"a": c02.STR_DOM + ["zed"], "b": c02.STR_DOM + ["zed"]}
+VALS = {"a": c02.STR_DOM + ["zed", ""], "b": c02.STR_DOM + ["zed", ""]}  # "zed": unseen by the data; "": empty string
 TYPES = {"unique_id": "int", "a": "str", "b": "str", "c": "int"}
 NEW_SD = "zz_new"
 SD_FAMILIES = {"plain": ["ds0", "ds1", "ds2"], "prefix": ["a", "a b", "a+c"]}
@@ -124,7 +124,72 @@ def gen_case(rng: random.Random, engine=None, sd_family=None):
     # records with their own tf_* fields (compare_two_records must prefer them)
     case["own_tf"] = [{c: (None if rng.random() < 0.15 else round(rng.uniform(0.01, 0.9), 4)) for c in TFCOLS} for _ in range(n)]
     case["tag"] = "random"
+    case["opts"] = gen_opts(rng, case)
     return case
+
+
+DEFAULT_OPTS = {
+    "col_order": None, "layout": "tables", "empty_str": False, "new_form": "frame", "new_ids": "fresh", "fm_rule_forms": None, "fm_unwrap": False,
+    "noid": None, "c2r_noid": None, "rt_settings": "dict", "rt_cache": True, "rt_other_first": False, "rt_dicts": False, "fb_rules": False,
+    "own_cols": None, "fm_own": False, "cluster_id_type": "int", "cluster_layout": "min", "me_thr": None, "failed_fm_first": False,
+}
+FM_THR_VARS = ["on", "on", "up", "down", "plus", "minus", "zero", "zerof", "negzero", "int", "default"]
+
+
+def opt(case, k):
+    return (case.get("opts") or {}).get(k, DEFAULT_OPTS[k])
+
+
+def gen_opts(rng, case):
+    """Input layouts, argument forms and option values of the public entry points (families the first generator never produced)."""
+    n, nds, mt = len(case["rows"]), case["n_datasets"], case["link_type"] != "dedupe_only"
+    o = {}
+    # input tables listing the same columns in a different order; one pre-concatenated table carrying its own source_dataset
+    cols = (["source_dataset"] if mt else []) + list(TYPES)
+    o["col_order"] = [rng.sample(cols, len(cols)) for _ in range(nds)] if rng.random() < 0.3 else None
+    o["layout"] = "concat" if mt and rng.random() < 0.3 else "tables"
+    # empty strings as data values (existing and new records)
+    o["empty_str"] = rng.random() < 0.2
+    if o["empty_str"]:
+        for r in case["rows"] + case["new"]:
+            for c in ("a", "b"):
+                if r[c] is not None and rng.random() < 0.3:
+                    r[c] = ""
+        if case.get("tf_lookup"):
+            for c, tab in case["tf_lookup"].items():
+                if rng.random() < 0.5:
+                    tab[""] = round(rng.uniform(0.01, 0.6), 4)
+    # find_matches_to_new_records: how the new records / rules / threshold are passed
+    o["new_form"] = rng.choice(["frame", "dicts", "dicts", "tablename"])
+    o["new_ids"] = rng.choice(["fresh", "fresh", "collide"])  # collide: a searched record IS an existing record (same id, same dataset)
+    o["fm_rule_forms"] = [rng.choice(["str", "str", "dict", "creator"]) for _ in case["fm_rules"]]
+    o["fm_unwrap"] = len(case["fm_rules"]) == 1 and rng.random() < 0.5  # a single rule passed bare, not in a list
+    case["fm_thr"] = [[f, rng.choice(FM_THR_VARS)] for f, _ in case["fm_thr"]]
+    # records lacking unique_id / source_dataset (the fix-up of find_matches_to_new_records.py)
+    drops = ["uid", "sd", "both"] if mt else ["uid"]
+    if rng.random() < 0.6:
+        k = min(len(case["new"]), rng.choice([1, 1, 1, 2]))
+        o["noid"] = {"drop": rng.choice(drops), "which": rng.sample(range(len(case["new"])), k), "form": rng.choice(["dicts", "frame"])}
+    if rng.random() < 0.5:
+        o["c2r_noid"] = {"drop": rng.choice(drops), "rec": rng.randrange(n), "side": rng.choice(["l", "r", "both"])}
+    # realtime.compare_records: settings object form, cache use, dict records, the same settings object for both dialects
+    o["rt_settings"] = rng.choice(["dict", "dict", "creator", "creator", "path", "str"])
+    o["rt_cache"] = rng.random() < 0.75
+    o["rt_other_first"] = rng.random() < 0.3 and all(l.get("u", 1) != 0 for c in case["comparisons"] for l in c["levels"])
+    o["rt_dicts"] = rng.random() < 0.5
+    # settings WITH blocking rules: include_found_by_blocking_rules of compare_two_records and compare_records
+    o["fb_rules"] = bool(case["fm_rules"]) and rng.random() < 0.6
+    # record-supplied tf_* fields: only some of the TF columns; also on new records of find_matches
+    tfc = tf_columns(case)
+    o["own_cols"] = sorted(rng.sample(tfc, 1)) if len(tfc) >= 2 and rng.random() < 0.7 else None  # None: all of them
+    o["fm_own"] = bool(tfc) and rng.random() < 0.4
+    # df_clusters: string cluster ids; the layout of a real clustering output (all input columns, any order)
+    o["cluster_id_type"] = rng.choice(["int", "int", "str"])
+    o["cluster_layout"] = rng.choice(["min", "full"])
+    o["me_thr"] = [rng.random(), rng.choice(["zero", "zero", "prob_half", "prob0", "plus", "minus", "probw"])] if rng.random() < 0.5 else None
+    # a failed find_matches call (rule naming a column that does not exist) followed by predict()
+    o["failed_fm_first"] = rng.random() < 0.2
+    return o
 
 
 def make_exact(rng, case):
@@ -137,7 +202,9 @@ def make_exact(rng, case):
                 l["m"], l["u"] = rng.choice([0.125, 0.25, 0.5, 1.0]), rng.choice([0.125, 0.25, 0.5, 1.0])
     case.pop("tf_lookup", None)
     case["tf_mode"] = "none"
-    case["fm_thr"] = [[rng.random(), rng.choice(["on", "on", "plus", "minus"])] for _ in range(2)]
+    case["fm_thr"] = [[rng.random(), rng.choice(["on", "on", "plus", "minus", "zero", "zerof", "negzero", "int", "default"])] for _ in range(2)]
+    if case.get("opts"):
+        case["opts"].update(own_cols=None, fm_own=False)
     case["tag"] = "exact_weights"
     return case
 
@@ -173,20 +240,29 @@ def universe(case):
     out = []
     for r in E:
         out.append({"id": rid(case, r), "kind": "E", "vals": {k: r[k] for k in "abc"}, "uid": r["unique_id"], "sd": sd_name(case, r["ds"]) if multi(case) else None, "ds": r["ds"]})
+    collide = opt(case, "new_ids") == "collide"
     for i, r in enumerate(E):
-        out.append({"id": f"C{i}", "kind": "C", "vals": {k: r[k] for k in "abc"}, "uid": 1000 + i, "sd": NEW_SD if multi(case) else None, "of": i})
+        if collide:  # the searched record is an existing record: same unique id (and the same source dataset)
+            out.append({"id": f"C{i}", "kind": "C", "vals": {k: r[k] for k in "abc"}, "uid": r["unique_id"], "sd": sd_name(case, r["ds"]) if multi(case) else None, "of": i})
+        else:
+            out.append({"id": f"C{i}", "kind": "C", "vals": {k: r[k] for k in "abc"}, "uid": 1000 + i, "sd": NEW_SD if multi(case) else None, "of": i})
     for k, r in enumerate(case["new"]):
         out.append({"id": f"U{k}", "kind": "U", "vals": {k2: r[k2] for k2 in "abc"}, "uid": 2000 + k, "sd": NEW_SD if multi(case) else None})
     return out
 
 
-def as_record(case, u, tf=None):
+def as_record(case, u, tf=None, cols=None, drop=None):
+    """drop: "uid" / "sd" / "both" — the record lacks its unique_id / source_dataset field; cols: the tf_* fields it carries."""
     d = {"unique_id": u["uid"], **u["vals"]}
     if multi(case):
         d["source_dataset"] = u["sd"]
     if tf is not None:
-        for c in tf_columns(case):
+        for c in (tf_columns(case) if cols is None else cols):
             d[f"tf_{c}"] = tf.get(c)
+    if drop in ("uid", "both"):
+        d.pop("unique_id")
+    if drop in ("sd", "both"):
+        d.pop("source_dataset", None)
     return d
 
 
@@ -217,37 +293,53 @@ def settings_for(case):
 def frames_for(case):
     from harness import impl
 
+    import pandas as pd
+
     out = []
     rng = random.Random(case.get("shuffle", 0))
+    orders = opt(case, "col_order")
     for d in range(case["n_datasets"]):
         rows = [r for r in case["rows"] if r["ds"] == d]
         rng.shuffle(rows)
+        types = {"source_dataset": "str", **TYPES} if multi(case) else dict(TYPES)
+        if orders:
+            types = {k: types[k] for k in orders[d]}
         if multi(case):
             rows = [{"source_dataset": sd_name(case, d), **{k: r[k] for k in TYPES}} for r in rows]
-            out.append(impl.typed_frame(rows, {"source_dataset": "str", **TYPES}))
         else:
-            out.append(impl.typed_frame([{k: r[k] for k in TYPES} for r in rows], TYPES))
-    return out if multi(case) else out[0]
+            rows = [{k: r[k] for k in TYPES} for r in rows]
+        out.append(impl.typed_frame(rows, types))
+    if not multi(case):
+        return out[0]
+    if opt(case, "layout") == "concat":  # ONE pre-concatenated table carrying its own source_dataset column
+        cols = list(out[0].columns)
+        return pd.concat([f[cols] for f in out], ignore_index=True)
+    return out
 
 
-def rec_frame(case, recs, with_tf):
+def rec_frame(case, recs, with_tf, drop=None):
+    """with_tf: False / True (all TF columns) / list of TF columns; drop as in as_record."""
     from harness import impl
 
     types = dict(TYPES)
     if multi(case):
         types = {"source_dataset": "str", **types}
     if with_tf:
-        for c in tf_columns(case):
+        for c in (tf_columns(case) if with_tf is True else with_tf):
             types[f"tf_{c}"] = "float"
+    if drop in ("uid", "both"):
+        types.pop("unique_id")
+    if drop in ("sd", "both"):
+        types.pop("source_dataset", None)
     return impl.typed_frame(recs, types)
 
 
-def make_linker(case, api, register=True):
+def make_linker(case, api, register=True, settings=None):
     from splink import Linker
 
     from harness import impl
 
-    linker = Linker(frames_for(case), settings_for(case), api)
+    linker = Linker(frames_for(case), settings or settings_for(case), api)
     if register and case["tf_mode"] == "registered":
         register_lookups(case, linker)
     return linker
@@ -261,8 +353,10 @@ def register_lookups(case, linker):
         linker.table_management.register_term_frequency_lookup(tdf, col, overwrite=True)
 
 
-def simplify(case, rows, idmap):
+def simplify(case, rows, idmap, idmap_r=None):
+    """idmap_r: the id map of the right-hand side when it differs (find_matches: new records whose ids collide with existing ones)."""
     names = [f"{c['col']}{ci}" for ci, c in enumerate(case["comparisons"])]
+    idmap_r = idmap if idmap_r is None else idmap_r
     out = []
     for r in rows:
         kl = (r.get("source_dataset_l"), r["unique_id_l"]) if multi(case) else (None, r["unique_id_l"])
@@ -272,11 +366,12 @@ def simplify(case, rows, idmap):
             terms.append(r.get(f"bf_{nm}"))
             if any("tf" in l for l in c["levels"]):
                 terms.append(r.get(f"bf_tf_adj_{nm}"))
+        fbv = r.get("found_by_blocking_rules")
         out.append({
-            "l": idmap.get(kl, str(kl)), "r": idmap.get(kr, str(kr)),
+            "l": idmap.get(kl, str(kl)), "r": idmap_r.get(kr, str(kr)),
             "g": [r.get(f"gamma_{nm}") for nm in names], "w": r["match_weight"], "p": r["match_probability"],
             "tfl": {c: r.get(f"tf_{c}_l") for c in tf_columns(case)}, "tfr": {c: r.get(f"tf_{c}_r") for c in tf_columns(case)},
-            "terms": terms, "mk": r.get("match_key"), "fb": ("found_by_blocking_rules" in r),
+            "terms": terms, "mk": r.get("match_key"), "fb": ("found_by_blocking_rules" in r), "fbv": None if fbv is None else bool(fbv),
         })
     return out
 
@@ -300,15 +395,82 @@ def near_threshold(w, t) -> bool:
 
 
 def pick_thresholds(case, ws):
+    """(value passed as match_weight_threshold or None = argument omitted, variant)."""
     ws = sorted({w for w in ws if w is not None and math.isfinite(w)})
     out = []
-    if not ws:
-        return out
     for frac, var in case["fm_thr"]:
+        if var in FIXED_THR:  # boundary values of the public argument: 0 (int), 0.0, -0.0, the default
+            out.append((FIXED_THR[var], var))
+            continue
+        if not ws:
+            continue
         w = ws[min(len(ws) - 1, int(frac * len(ws)))]
+        if var == "int":
+            out.append((int(round(w)), var))  # a Python int
+            continue
         t = {"on": w, "up": math.nextafter(w, math.inf), "down": math.nextafter(w, -math.inf), "plus": w + 0.5, "minus": w - 0.5}[var]
-        out.append(t)
+        out.append((t, var))
     return out
+
+
+FIXED_THR = {"zero": 0, "zerof": 0.0, "negzero": -0.0, "default": None}
+DEFAULT_FM_THRESHOLD = -4.0  # signature of find_matches_to_new_records
+
+
+def no_none(d):
+    return all(v is not None for v in d.values())
+
+
+def dicts_typed(recs):
+    """A list of dicts types every column by itself when each column has at least one value (an all-None column is left to
+    engine-side type inference, which is not scoring)."""
+    return all(any(r[k] is not None for r in recs) for k in recs[0])
+
+
+def rule_args(case):
+    """The find_matches rules as str / dict / BlockingRuleCreator objects; a single rule possibly bare (not in a list)."""
+    from splink.blocking_rule_library import CustomRule
+
+    forms = opt(case, "fm_rule_forms") or []
+    out = []
+    for i, r in enumerate(case["fm_rules"]):
+        f = forms[i] if i < len(forms) else "str"
+        q = bg.sql(r)
+        out.append(q if f == "str" else {"blocking_rule": q} if f == "dict" else CustomRule(q))
+    if opt(case, "fm_unwrap") and len(out) == 1:
+        return out[0]
+    return out
+
+
+def settings_with_rules(case):
+    """The same model with blocking_rules_to_generate_predictions = the case's rules (for include_found_by_blocking_rules)."""
+    s = settings_for(case)
+    s["blocking_rules_to_generate_predictions"] = [bg.sql(r) for r in case["fm_rules"]]
+    return s  # (columns used only by the rules reach the scored table through Splink's own bookkeeping)
+
+
+def rt_settings_obj(case, settings):
+    """settings argument of realtime.compare_records: dict / SettingsCreator / Path / str path."""
+    from splink import SettingsCreator
+
+    form = opt(case, "rt_settings")
+    if form == "dict":
+        return settings
+    if form == "creator":
+        return SettingsCreator.from_path_or_dict(settings)
+    path = core.scratch_dir() / f"c10_{core.canon_hash(settings)}.json"  # the SQL cache is keyed by the path: one file per content
+    path.write_text(json.dumps(settings))
+    return path if form == "path" else str(path)
+
+
+def own_columns(case):
+    tfc = tf_columns(case)
+    return [c for c in (opt(case, "own_cols") or tfc) if c in tfc] or tfc
+
+
+def merged_own_tf(case, i, u):
+    """Record i's term frequencies when it supplies own_columns itself and the rest is looked up."""
+    return {**expected_tf(case, u["vals"]), **{c: case["own_tf"][i][c] for c in own_columns(case)}}
 
 
 def run_impl(case: dict) -> dict:
@@ -320,19 +482,33 @@ def run_impl(case: dict) -> dict:
 
     api = impl.make_api(case["engine"], threads=2)
     U = universe(case)
-    idmap = {(u["sd"], u["uid"]): u["id"] for u in U}
+    # id maps: existing records win on the left / in record-vs-record calls, new records on the right of find_matches
+    idmap = {(u["sd"], u["uid"]): u["id"] for u in sorted(U, key=lambda u: u["kind"] == "E")}
+    idmap_new = {(u["sd"], u["uid"]): u["id"] for u in sorted(U, key=lambda u: u["kind"] != "E")}
     E = [u for u in U if u["kind"] == "E"]
     CU = [u for u in U if u["kind"] in ("C", "U")]
     EU = [u for u in U if u["kind"] in ("E", "U")]
+    Us = [u for u in U if u["kind"] == "U"]
     res = {}
     settings = settings_for(case)
+    fb_rules = opt(case, "fb_rules") and case["fm_rules"]
+    settings_fb = settings_with_rules(case) if fb_rules else None
+    lf = rec_frame(case, [as_record(case, u) for u in EU], False)
 
-    # no-source linker: compare_two_records before anything is cached
-    if tf_columns(case):
-        lk0 = make_linker(case, impl.make_api(case["engine"], threads=2))
-        res["c2r_nosrc"] = simplify(case, lk0.inference.compare_two_records(rec_frame(case, [as_record(case, u) for u in E], False), rec_frame(case, [as_record(case, u) for u in E], False)).as_record_dict(), idmap)
+    # no-source linker: compare_two_records before anything is cached (its settings carry the blocking rules, if any)
+    if tf_columns(case) or fb_rules:
+        lk0 = make_linker(case, impl.make_api(case["engine"], threads=2), settings=settings_fb)
+        ef = rec_frame(case, [as_record(case, u) for u in E], False)
+        if tf_columns(case):
+            res["c2r_nosrc"] = simplify(case, lk0.inference.compare_two_records(ef, ef).as_record_dict(), idmap)
+        if fb_rules:
+            res["c2r_fbr"] = simplify(case, lk0.inference.compare_two_records(lf, lf, include_found_by_blocking_rules=True).as_record_dict(), idmap)
 
-    linker = make_linker(case, api)
+    # object reuse: ONE settings object (dict, or SettingsCreator when realtime gets a creator) serves the linker, realtime and,
+    # with rt_other_first, the other dialect too
+    sobj = rt_settings_obj(case, settings)
+    shared = sobj if opt(case, "rt_settings") == "creator" else settings
+    linker = make_linker(case, api, settings=shared)
     if case["tf_mode"] == "compute_tf_table":
         for c in tf_columns(case):
             linker.table_management.compute_tf_table(c)
@@ -343,7 +519,6 @@ def run_impl(case: dict) -> dict:
     res["predict"] = simplify(case, pred_raw, idmap)
 
     # compare_two_records: batched cartesian product and single dict calls
-    lf = rec_frame(case, [as_record(case, u) for u in EU], False)
     res["c2r"] = simplify(case, linker.inference.compare_two_records(lf, lf).as_record_dict(), idmap)
     res["c2r_single"] = []
     for row in res["predict"][:2]:
@@ -351,52 +526,106 @@ def run_impl(case: dict) -> dict:
         if any(v is None for u in (ul, ur) for v in u["vals"].values()):
             continue  # a None in a one-row dict leaves the column untyped (engine-side type inference, not scoring)
         res["c2r_single"] += simplify(case, linker.inference.compare_two_records(as_record(case, ul), as_record(case, ur)).as_record_dict(), idmap)
+    # ... records lacking unique_id / source_dataset (the fix-up supplies literals)
+    cn = opt(case, "c2r_noid")
+    if cn:
+        e0, e1 = E[cn["rec"] % len(E)], E[(cn["rec"] + 1) % len(E)]
+        bare = lambda u: (as_record(case, u, drop=cn["drop"]) if no_none(u["vals"]) and cn["side"] == "both"
+                          else rec_frame(case, [as_record(case, u, drop=cn["drop"])], False, drop=cn["drop"]))
+        full = rec_frame(case, [as_record(case, u) for u in E], False)
+        left, right = {"l": (bare(e0), full), "r": (full, bare(e0)), "both": (bare(e0), bare(e1))}[cn["side"]]
+        res["c2r_noid"] = simplify(case, linker.inference.compare_two_records(left, right).as_record_dict(), idmap)
+
+    # a failed call followed by predict(): the linker's own settings must be back
+    if opt(case, "failed_fm_first"):
+        try:
+            linker.inference.find_matches_to_new_records(rec_frame(case, [as_record(case, u) for u in CU[:1]], False), blocking_rules=["l.no_such_column = r.no_such_column"])
+            res["failed_fm"] = "no error"
+        except Exception as e:  # noqa: BLE001
+            res["failed_fm"] = type(e).__name__
+        res["predict_after_failed"] = simplify(case, linker.inference.predict().as_record_dict(), idmap)
 
     # realtime: the harness supplies the term frequencies itself
     api2 = impl.make_api(case["engine"], threads=2)
     tfrecs = [as_record(case, u, expected_tf(case, u["vals"])) for u in EU]
     tff = rec_frame(case, tfrecs, True)
-    res["rt"] = simplify(case, realtime.compare_records(tff, tff, settings, api2).as_record_dict(), idmap)
     one_l, one_r = rec_frame(case, tfrecs[:1], True), rec_frame(case, tfrecs[-1:], True)
-    fb = realtime.compare_records(one_l, one_r, settings, api2, include_found_by_blocking_rules=True).as_record_dict()
+    if opt(case, "rt_dicts") and no_none(tfrecs[0]) and no_none(tfrecs[-1]):
+        one_l, one_r = tfrecs[0], tfrecs[-1]
+        res["rt_dicts"] = True
+    if opt(case, "rt_other_first"):  # the same settings object used for the other dialect first
+        other = impl.make_api("sqlite" if case["engine"] == "duckdb" else "duckdb", threads=2)
+        res["rt_other"] = simplify(case, realtime.compare_records(one_l, one_r, sobj, other).as_record_dict(), idmap)
+    res["rt"] = simplify(case, realtime.compare_records(tff, tff, sobj, api2, use_sql_from_cache=opt(case, "rt_cache")).as_record_dict(), idmap)
+    fb = realtime.compare_records(one_l, one_r, sobj, api2, include_found_by_blocking_rules=True).as_record_dict()
     res["rt_fb"] = simplify(case, fb, idmap)
-    res["rt_nofb"] = simplify(case, realtime.compare_records(one_l, one_r, settings, api2, include_found_by_blocking_rules=False).as_record_dict(), idmap)
+    res["rt_nofb"] = simplify(case, realtime.compare_records(one_l, one_r, sobj, api2, include_found_by_blocking_rules=False).as_record_dict(), idmap)
+    if fb_rules:
+        res["rt_fbr"] = simplify(case, realtime.compare_records(tff, tff, rt_settings_obj(case, settings_fb), api2, include_found_by_blocking_rules=True).as_record_dict(), idmap)
 
-    # records carrying their own tf_* fields on the left, plain records on the right
+    # records carrying their own tf_* fields (all or some TF columns) on the left, plain records on the right
     if tf_columns(case):
-        own = [as_record(case, u, case["own_tf"][i]) for i, u in enumerate(E)]
-        res["c2r_own"] = simplify(case, linker.inference.compare_two_records(rec_frame(case, own, True), rec_frame(case, [as_record(case, u) for u in E], False)).as_record_dict(), idmap)
-        res["rt_own"] = simplify(case, realtime.compare_records(rec_frame(case, own, True), rec_frame(case, [as_record(case, u, expected_tf(case, u["vals"])) for u in E], True), settings, api2).as_record_dict(), idmap)
+        oc = own_columns(case)
+        own = [as_record(case, u, case["own_tf"][i], cols=oc) for i, u in enumerate(E)]
+        res["c2r_own"] = simplify(case, linker.inference.compare_two_records(rec_frame(case, own, oc), rec_frame(case, [as_record(case, u) for u in E], False)).as_record_dict(), idmap)
+        ownrt = [as_record(case, u, merged_own_tf(case, i, u)) for i, u in enumerate(E)]
+        res["rt_own"] = simplify(case, realtime.compare_records(rec_frame(case, ownrt, True), rec_frame(case, [as_record(case, u, expected_tf(case, u["vals"])) for u in E], True), sobj, api2).as_record_dict(), idmap)
 
-    # find_matches_to_new_records
-    newf = rec_frame(case, [as_record(case, u) for u in CU], False)
-    fm_all = linker.inference.find_matches_to_new_records(newf, blocking_rules=[], match_weight_threshold=-1e9).as_record_dict()
-    res["fm_all"] = simplify(case, fm_all, idmap)
+    # find_matches_to_new_records: the new records as a frame / a list of dicts / the name of a registered table
+    newrecs = [as_record(case, u) for u in CU]
+    newf = rec_frame(case, newrecs, False)
+    form = opt(case, "new_form")
+    if form == "dicts" and not dicts_typed(newrecs):
+        form = "frame"  # a None in a list of dicts leaves the column's type to engine-side inference (not scoring)
+    if form == "tablename":
+        linker.table_management.register_table(newf, "c10_new_records", overwrite=True)
+    new_arg = {"frame": newf, "dicts": newrecs, "tablename": "c10_new_records"}[form]
+    res["new_form"] = form
+    fm_all = linker.inference.find_matches_to_new_records(new_arg, blocking_rules=[], match_weight_threshold=-1e9).as_record_dict()
+    res["fm_all"] = simplify(case, fm_all, idmap, idmap_new)
     res["fm"] = []
-    rules = [bg.sql(r) for r in case["fm_rules"]]
-    thrs = [-1e9] + pick_thresholds(case, [r["w"] for r in res["fm_all"]])
-    for t in thrs:
-        lk = linker
-        try:
-            out = lk.inference.find_matches_to_new_records(newf, blocking_rules=rules, match_weight_threshold=t).as_record_dict()
-        except Exception:
-            # F8 (C08): a failed call leaves the linker's settings overwritten — use a fresh linker afterwards
-            linker = make_linker(case, api)
-            raise
-        res["fm"].append({"thr": t, "rows": simplify(case, out, idmap)})
+    rules = rule_args(case)  # the same rule objects are reused by every call
+    thrs = [(-1e9, "all")] + pick_thresholds(case, [r["w"] for r in res["fm_all"]])
+    for t, var in thrs:
+        kw = {} if t is None else {"match_weight_threshold": t}
+        out = linker.inference.find_matches_to_new_records(new_arg, blocking_rules=rules, **kw).as_record_dict()
+        res["fm"].append({"thr": DEFAULT_FM_THRESHOLD if t is None else float(t), "how": var, "rows": simplify(case, out, idmap, idmap_new)})
+    # ... new records lacking unique_id / source_dataset
+    nd = opt(case, "noid")
+    if nd:
+        which = [k for k in nd["which"] if k < len(Us)] or [0]
+        recs = [as_record(case, Us[k], drop=nd["drop"]) for k in which]
+        arg = recs if nd["form"] == "dicts" and dicts_typed(recs) else rec_frame(case, recs, False, drop=nd["drop"])
+        out = linker.inference.find_matches_to_new_records(arg, blocking_rules=[], match_weight_threshold=-1e9).as_record_dict()
+        res["fm_noid"] = {"which": which, "rows": simplify(case, out, idmap)}
+    # ... new records carrying their own tf_* fields: compare_two_records on the same records is the reference
+    if opt(case, "fm_own") and tf_columns(case):
+        oc = own_columns(case)
+        ownu = rec_frame(case, [as_record(case, u, case["own_tf"][k % len(case["own_tf"])], cols=oc) for k, u in enumerate(Us)], oc)
+        res["fm_own"] = simplify(case, linker.inference.find_matches_to_new_records(ownu, blocking_rules=[], match_weight_threshold=-1e9).as_record_dict(), idmap, idmap_new)
+        res["c2r_fm_own"] = simplify(case, linker.inference.compare_two_records(rec_frame(case, [as_record(case, u) for u in E], False), ownu).as_record_dict(), idmap, idmap_new)
 
     # missing within-cluster edges
     crow = []
+    str_ids = opt(case, "cluster_id_type") == "str"
+    full = opt(case, "cluster_layout") == "full"
     for i, u in enumerate(E):
         if case["clusters"][i] is not None:
-            d = {"cluster_id": case["clusters"][i], "unique_id": u["uid"]}
+            d = {"cluster_id": f"k{case['clusters'][i]}" if str_ids else case["clusters"][i], "unique_id": u["uid"]}
             if multi(case):
                 d["source_dataset"] = u["sd"]
+            if full:
+                d.update(u["vals"])
             crow.append(d)
     if crow:
-        ctypes = {"cluster_id": "int", "unique_id": "int"}
+        ctypes = {"cluster_id": "str" if str_ids else "int", "unique_id": "int"}
         if multi(case):
             ctypes["source_dataset"] = "str"
+        if full:  # the layout of a clustering output: every input column, in any order
+            ctypes.update({k: TYPES[k] for k in "abc"})
+            order = list(ctypes)
+            random.Random(case.get("shuffle", 0)).shuffle(order)
+            ctypes = {k: ctypes[k] for k in order}
         dfc = linker.table_management.register_table(impl.typed_frame(crow, ctypes), "c10_clusters", overwrite=True)
         dfp = None
         if case["supplied_mode"] != "none":
@@ -419,9 +648,37 @@ def run_impl(case: dict) -> dict:
                         sdf[c] = pd.Series([], dtype="string")
             dfp = linker.table_management.register_table(sdf, "c10_supplied", overwrite=True)
         res["me"] = simplify(case, linker.inference._score_missing_cluster_edges(dfc, dfp).as_record_dict(), idmap)
+        mt = opt(case, "me_thr")
+        if mt:
+            kw, t = me_threshold(mt, [r["w"] for r in res["me"]])
+            if kw is not None:
+                res["me_thr"] = {"kw": kw, "t": t, "rows": simplify(case, linker.inference._score_missing_cluster_edges(dfc, dfp, **kw).as_record_dict(), idmap)}
     else:
         res["me"] = None
+    res["settings_dict_unchanged"] = settings == settings_for(case)
     return res
+
+
+def me_threshold(mt, ws):
+    """Keyword arguments of _score_missing_cluster_edges and the match weight they stand for (None = no filter)."""
+    frac, var = mt
+    if var == "zero":
+        return {"threshold_match_weight": 0}, 0.0
+    if var == "prob_half":
+        return {"threshold_match_probability": 0.5}, 0.0
+    if var == "prob0":
+        return {"threshold_match_probability": 0}, None
+    ws = sorted({w for w in ws if w is not None and math.isfinite(w)})
+    if not ws:
+        return None, None
+    w = ws[min(len(ws) - 1, int(frac * len(ws)))]
+    if var == "probw":
+        p = 2 ** (w + 0.25) / (1 + 2 ** (w + 0.25))
+        if not 0 < p < 1:
+            return None, None
+        return {"threshold_match_probability": p}, math.log2(p / (1 - p))
+    t = w + 0.5 if var == "plus" else w - 0.5
+    return {"threshold_match_weight": t}, t
 
 
 run_impl_safe = core.safe(run_impl)
@@ -554,7 +811,7 @@ def verdict(case, res):
         return "realtime.compare_records: include_found_by_blocking_rules ignored (column present/absent the wrong way round)"
     if len(res["rt_fb"]) != 1 or len(res["rt_nofb"]) != 1 or not same_score(res["rt_fb"][0], res["rt_nofb"][0]):
         return "realtime.compare_records: scores differ between include_found_by_blocking_rules variants"
-    # --- record-supplied TF wins in compare_two_records; equals realtime with the same values
+    # --- record-supplied TF wins in compare_two_records (for the columns the record carries; the others are looked up); equals realtime
     if "c2r_own" in res:
         co, err = index(res["c2r_own"], "compare_two_records (own tf)")
         if err:
@@ -562,18 +819,75 @@ def verdict(case, res):
         ro, err = index(res["rt_own"], "realtime (own tf)")
         if err:
             return err
+        oc = own_columns(case)
         for i, e in enumerate(E):
             for e2 in E:
                 a, b = co.get((e["id"], e2["id"])), ro.get((e["id"], e2["id"]))
                 if a is None or b is None:
                     return "own-tf comparison: missing row"
                 want = case["own_tf"][i]
-                if any(not core.close(a["tfl"][c], want[c], 1e-12) for c in a["tfl"]):
-                    return f"compare_two_records ignored the tf_* fields supplied in record {e['id']}: used {a['tfl']}, supplied {want}"
+                if any(not core.close(a["tfl"][c], want[c], 1e-12) for c in oc):
+                    return f"compare_two_records ignored the tf_* fields supplied in record {e['id']}: used {a['tfl']}, supplied {({c: want[c] for c in oc})}"
+                looked = expected_tf(case, e["vals"])
+                for c in a["tfl"]:
+                    if c not in oc and not core.close(a["tfl"][c], looked[c], 1e-12):
+                        return (f"compare_two_records gave record {e['id']} (value {e['vals'][c]!r}), which supplies only {['tf_' + x for x in oc]}, the term frequency {a['tfl'][c]} "
+                                f"for column {c}; the term frequency table says {looked[c]} [tf_mode {case['tf_mode']}]")
                 if same_tf(a, b) and not same_score(a, b):
                     return f"compare_two_records with supplied tf fields disagrees with realtime on {(e['id'], e2['id'])}: {fmt(a)} vs {fmt(b)}"
                 if not same_tf(a, b):
                     return f"compare_two_records looked up tf {a['tfr']} for plain record {e2['id']} but the model's TF table gives {b['tfr']}"
+    # --- records lacking unique_id / source_dataset: the fix-up must not change the scores
+    cn = opt(case, "c2r_noid")
+    if cn and "c2r_noid" in res:
+        e0, e1 = E[cn["rec"] % nE], E[(cn["rec"] + 1) % nE]
+        rows = res["c2r_noid"]
+        exp = [(e0, x) for x in E] if cn["side"] == "l" else [(x, e0) for x in E] if cn["side"] == "r" else [(e0, e1)]
+        if len(rows) != len(exp):
+            return f"compare_two_records with a record lacking {cn['drop']} returned {len(rows)} rows for {len(exp)} pairs"
+        for x, y in exp:
+            ref = c2r[(x["id"], y["id"])]
+            key = y["id"] if cn["side"] == "l" else x["id"]
+            got = rows if cn["side"] == "both" else [r for r in rows if (r["r"] if cn["side"] == "l" else r["l"]) == key]
+            if len(got) != 1 or not same_score(ref, got[0]) or not same_tf(ref, got[0]):
+                return (f"compare_two_records scores ({x['id']}, {y['id']}) differently when the {cn['side']} record(s) lack {cn['drop']}: "
+                        f"{[fmt(g) for g in got]} vs {fmt(ref)}")
+    # --- a failed find_matches call must leave predict() unchanged
+    if "predict_after_failed" in res:
+        if res.get("failed_fm") == "no error":
+            return "find_matches_to_new_records accepted a blocking rule on a column that does not exist"
+        p2, err = index(res["predict_after_failed"], "predict() after a failed call")
+        if err:
+            return err
+        if set(p2) != set(pred) or any(not same_score(pred[k], p2[k]) or not same_tf(pred[k], p2[k]) for k in pred):
+            return f"predict() after a failed find_matches_to_new_records call differs from predict() before it: {len(p2)} rows vs {len(pred)}"
+    if res.get("settings_dict_unchanged") is False:
+        return "the settings dict passed to Linker / realtime.compare_records was modified in place"
+    # --- realtime: the same settings object used for the other dialect first
+    for o in res.get("rt_other", []):
+        q = rt.get((o["l"], o["r"]))
+        if len(res["rt_other"]) != 1 or q is None or not same_score(q, o):
+            return f"realtime.compare_records gives ({o['l']}, {o['r']}) a different score on the other SQL dialect with the same settings object: {fmt(o)} vs {fmt(q)}"
+    # --- include_found_by_blocking_rules with blocking rules in the settings: the flag is 'some rule is TRUE', the scores do not move
+    for name, what in (("rt_fbr", "realtime.compare_records"), ("c2r_fbr", "compare_two_records")):
+        if name not in res:
+            continue
+        rows, err = index(res[name], what + " (found_by_blocking_rules)")
+        if err:
+            return err
+        if set(rows) != set(c2r):
+            return f"{what} with include_found_by_blocking_rules returned {len(rows)} rows, without {len(c2r)}"
+        nosrc = {(r["l"], r["r"]): r for r in res.get("c2r_nosrc", [])}
+        for k, r in rows.items():
+            x, y = by[k[0]], by[k[1]]
+            want = any(bg.ev(rule, x["vals"], y["vals"]) is True for rule in case["fm_rules"])
+            if r["fbv"] is not want:
+                return f"{what}: found_by_blocking_rules is {r['fbv']} for {k} but {'a' if want else 'no'} rule of {[bg.sql(x) for x in case['fm_rules']]} is TRUE"
+            ref = rt[k] if name == "rt_fbr" else (c2r[k] if not tf_columns(case) else nosrc.get(k))
+            if ref is not None and not same_score(ref, r):
+                return f"{what}: include_found_by_blocking_rules (rules in the settings) changes the score of {k}: {fmt(r)} vs {fmt(ref)}"
+            if r["g"] != c2r[k]["g"]:
+                return f"{what}: include_found_by_blocking_rules (rules in the settings) changes the comparison levels of {k}: {r['g']} vs {c2r[k]['g']}"
     # --- find_matches exactness (brute force over existing x new, first TRUE rule, strict threshold)
     rules = case["fm_rules"] or [None]
     news = [u for u in U if u["kind"] in ("C", "U")]
@@ -607,6 +921,20 @@ def verdict(case, res):
         extra = [k for k in got if k[0] not in by or k[1] not in by or by[k[0]]["kind"] != "E" or by[k[1]]["kind"] == "E"]
         if extra:
             return f"find_matches_to_new_records returned rows that are not (existing, new): {extra[:3]}"
+    # --- new records carrying their own tf_* fields: find_matches == compare_two_records on the same records
+    if "fm_own" in res:
+        fo, err = index(res["fm_own"], "find_matches_to_new_records (own tf)")
+        if err:
+            return err
+        cf, err = index(res["c2r_fm_own"], "compare_two_records (own tf on the right)")
+        if err:
+            return err
+        if set(fo) != set(cf):
+            return f"find_matches_to_new_records with tf_* fields in the new records returned {len(fo)} rows, compare_two_records {len(cf)}"
+        for k in fo:
+            if not same_score(fo[k], cf[k]) or not same_tf(fo[k], cf[k]):
+                return (f"find_matches_to_new_records and compare_two_records disagree on {k} when the new record carries {['tf_' + c for c in own_columns(case)]}: "
+                        f"{fmt(fo[k])} vs {fmt(cf[k])} [tf_mode {case['tf_mode']}]")
     # --- missing edges exactness
     if res["me"] is not None:
         me, err = index(res["me"], "_score_missing_cluster_edges")
@@ -644,6 +972,44 @@ def verdict(case, res):
                         return f"_score_missing_cluster_edges disagrees with predict on {sorted(fk)}: {fmt(r)} vs {fmt(p)}"
         if set(un) - exp_pairs:
             return f"_score_missing_cluster_edges returned inadmissible pairs {sorted(map(sorted, set(un) - exp_pairs))[:3]}"
+        if "me_thr" in res:
+            t, kw = res["me_thr"]["t"], res["me_thr"]["kw"]
+            mt, err = index(res["me_thr"]["rows"], "_score_missing_cluster_edges (threshold)")
+            if err:
+                return err
+            for k, r in me.items():
+                w = r["w"]
+                if t is not None and w is not None and w != t and near_threshold(w, t):
+                    continue
+                should = t is None or (w is not None and w >= t)
+                g = mt.get(k)
+                if should and g is None:
+                    return f"_score_missing_cluster_edges({kw}) dropped the missing pair {k} whose weight {w} is >= the threshold ({t})"
+                if not should and g is not None:
+                    return f"_score_missing_cluster_edges({kw}) returned the pair {k} whose weight {w} is below the threshold ({t})"
+                if g is not None and not same_score(r, g):
+                    return f"_score_missing_cluster_edges({kw}) scores {k} differently with a threshold: {fmt(g)} vs {fmt(r)}"
+            if set(mt) - set(me):
+                return f"_score_missing_cluster_edges({kw}) returned pairs it does not return without a threshold: {sorted(set(mt) - set(me))[:3]}"
+    # --- (checked last: a known alarm of this family must not mask the checks above) new records lacking unique_id / source_dataset: every (existing, new) pair once, scored as with ids
+    if "fm_noid" in res:
+        nd = opt(case, "noid")
+        chosen = [Us[k] for k in res["fm_noid"]["which"]]
+        got = sorted(((r["l"], r["g"], r["w"]) for r in res["fm_noid"]["rows"]), key=repr)
+        want = sorted(((e["id"], fma[(e["id"], u["id"])]["g"], fma[(e["id"], u["id"])]["w"]) for e in E for u in chosen), key=repr)
+        if len(got) != len(want):
+            return (f"find_matches_to_new_records with {len(chosen)} new record(s) lacking {nd['drop']} returned {len(got)} rows; "
+                    f"{nE} existing x {len(chosen)} new = {len(want)} pairs, each expected once")
+        got_by, want_by = {}, {}
+        for l, g, w in got:
+            got_by.setdefault(l, []).append((g, w))
+        for l, g, w in want:
+            want_by.setdefault(l, []).append((g, w))
+        for l in want_by:
+            a, b = got_by.get(l, []), want_by[l]
+            ok = len(a) == len(b) and any(all(x[0] == y[0] and core.close(x[1], y[1], 1e-9, 1e-9) for x, y in zip(a, perm)) for perm in (b, b[::-1]))
+            if not ok:
+                return f"find_matches_to_new_records scores existing {l} against new record(s) lacking {nd['drop']} as {a}; with ids: {b}"
     return None
 
 
@@ -669,8 +1035,9 @@ def model_world(case, nosrc=False):
 
     recs = []
 
-    def add(vals, sup):
-        recs.append({"val": [code(c, vals[c]) for c in TFCOLS], "sup": [None if sup is None else {"v": bits(sup.get(c))} for c in TFCOLS], "_vals": vals})
+    def add(vals, sup, absent=()):
+        """sup: the record's own tf_* fields (None = it carries none); absent: TF columns whose field the record lacks."""
+        recs.append({"val": [code(c, vals[c]) for c in TFCOLS], "sup": [None if sup is None or c in absent else {"v": bits(sup.get(c))} for c in TFCOLS], "_vals": vals})
         return len(recs) - 1
 
     ix = {}
@@ -679,8 +1046,11 @@ def model_world(case, nosrc=False):
     for u in U:
         if u["kind"] in ("E", "U"):
             ix["T" + u["id"]] = add(u["vals"], expected_tf(case, u["vals"]))
+    oc = own_columns(case) if tf_columns(case) else []
     for i, u in enumerate(E):
-        ix["O" + u["id"]] = add(u["vals"], case["own_tf"][i])
+        # O: as given to compare_two_records (only the own columns); R: as given to realtime (own columns + looked-up rest)
+        ix["O" + u["id"]] = add(u["vals"], case["own_tf"][i], absent=[c for c in tf_columns(case) if c not in oc])
+        ix["R" + u["id"]] = add(u["vals"], merged_own_tf(case, i, u) if tf_columns(case) else case["own_tf"][i])
     base = {
         "op": "entry", "prior": core.f2b(case["prior"]), "comparisons": c02.model_levels(case),
         "tf": [[bits(tabs[c].get(v)) for v in VALS[c]] for c in TFCOLS],
@@ -726,7 +1096,7 @@ def model_requests(case, res):
     for r in res.get("c2r_own", []):
         q("c2r", ix["O" + r["l"]], ix[r["r"]], r, "compare_two_records(own tf)")
     for r in res.get("rt_own", []):
-        q("rt", ix["O" + r["l"]], ix["T" + r["r"]], r, "realtime(own tf)")
+        q("rt", ix["R" + r["l"]], ix["T" + r["r"]], r, "realtime(own tf)")
     need = [(l, r) for _, l, r in queries]
     # find_matches: records must be laid out existing 0..nE-1 then new — the universe order is E, C, U
     nN = len([u for u in U if u["kind"] in ("C", "U")])
@@ -841,15 +1211,30 @@ def summarise(ctx, c, r):
     ctx.count("n_existing", len(c["rows"])); ctx.count("n_unseen_new", len(c["new"])); ctx.count("n_fm_rules", len(c["fm_rules"]))
     ctx.count("supplied", c["supplied_mode"] + ("+reversed" if any(s[2] for s in c["supplied"]) else "")); ctx.count("sd_family", c.get("sd_family", "plain"))
     ctx.count("n_comparisons", len(c["comparisons"]))
+    ctx.count("input_layout", opt(c, "layout") if multi(c) else "one table (dedupe_only)"); ctx.count("input_column_order", "permuted per table" if opt(c, "col_order") else "same")
+    ctx.count("empty_strings", "some" if any(x[k] == "" for x in c["rows"] + c["new"] for k in "ab") else "none")
+    ctx.count("new_record_ids", opt(c, "new_ids")); ctx.count("fm_rule_forms", "+".join(sorted(set(opt(c, "fm_rule_forms") or []))) + (" (bare, not a list)" if opt(c, "fm_unwrap") and len(c["fm_rules"]) == 1 else "") if c["fm_rules"] else "no rules")
+    ctx.count("rt_settings_form", opt(c, "rt_settings")); ctx.count("rt_use_sql_from_cache", opt(c, "rt_cache")); ctx.count("rt_other_dialect_first", opt(c, "rt_other_first"))
+    ctx.count("cluster_table", f"{opt(c, 'cluster_id_type')} ids/{opt(c, 'cluster_layout')} columns")
+    ctx.count("own_tf_columns", "none (no TF)" if not tf_columns(c) else "all" if len(own_columns(c)) == len(tf_columns(c)) else "some")
     if isinstance(r, dict) and "fm" in r:
         for run in r["fm"][1:]:
             ws = {x["w"] for x in r["fm_all"]}
             ctx.count("fm_threshold", ("on an emitted weight" + (" (exactly transmitted)" if literal_exact(run["thr"]) else " (excepted: inexact literal)")) if run["thr"] in ws else "off")
+            ctx.count("fm_threshold_variant", run.get("how"))
         ctx.count("me_rows", "none" if not r.get("me") else "some")
+        ctx.count("new_records_passed_as", r.get("new_form"))
+        nd, cn = opt(c, "noid"), opt(c, "c2r_noid")
+        ctx.count("fm_records_lacking_ids", "not run" if "fm_noid" not in r else f"{len(r['fm_noid']['which'])} record(s) lacking {nd['drop']}")
+        ctx.count("c2r_records_lacking_ids", "not run" if "c2r_noid" not in r else f"{cn['side']} lacking {cn['drop']}")
+        ctx.count("rt_dict_records", bool(r.get("rt_dicts")))
+        ctx.count("found_by_blocking_rules_with_rules", "rt_fbr" in r); ctx.count("fm_new_records_with_own_tf", "fm_own" in r)
+        ctx.count("me_threshold", "not run" if "me_thr" not in r else ",".join(f"{k}={'0' if v == 0 else 'x'}" for k, v in r["me_thr"]["kw"].items()))
+        ctx.count("failed_call_then_predict", r.get("failed_fm", "not run"))
 
 
 def canon(c):
-    return {k: c[k] for k in ("rows", "comparisons", "prior", "engine", "link_type", "tf_mode", "tf_lookup", "new", "fm_rules", "clusters", "supplied", "sd_family") if k in c}
+    return {k: c[k] for k in ("rows", "comparisons", "prior", "engine", "link_type", "tf_mode", "tf_lookup", "new", "fm_rules", "clusters", "supplied", "sd_family", "fm_thr", "opts") if k in c}
 
 
 def compare(ctx, cases, drv):
@@ -959,6 +1344,18 @@ def to_tuple(r):
 
 
 CLASSES = [
+    ("new record(s) lacking", "find_matches with new records lacking unique_id/source_dataset: pairs not returned exactly once / scored differently"),
+    ("record(s) lack", "compare_two_records scores records lacking unique_id/source_dataset differently"),
+    ("with a record lacking", "compare_two_records scores records lacking unique_id/source_dataset differently"),
+    ("after a failed", "a failed find_matches call changes a later predict()"),
+    ("accepted a blocking rule on a column that does not exist", "a failed find_matches call changes a later predict()"),
+    ("other SQL dialect", "realtime: same settings object, other dialect, different score"),
+    ("modified in place", "settings dict modified in place"),
+    ("found_by_blocking_rules is", "found_by_blocking_rules flag wrong"),
+    ("(rules in the settings)", "include_found_by_blocking_rules changes scores"),
+    ("_score_missing_cluster_edges({", "missing edges with a threshold not exact"),
+    ("when the new record carries", "find_matches != compare_two_records for new records carrying tf_* fields"),
+    ("which supplies only", "a record gets the wrong term frequency"),
     ("compare_two_records disagrees with predict", "compare_two_records != predict"),
     ("compare_two_records (two dicts)", "compare_two_records != predict"),
     ("the term frequency", "a record gets the wrong term frequency"),
@@ -994,6 +1391,12 @@ def run(ctx: core.Ctx):
         "lookup registered after predict) x 1-3 new records with unseen values x 0-3 find_matches rules (AND/OR/NOT of equalities, substr, asymmetric atoms) x 2 thresholds on/"
         "next-above/next-below/+-0.5 an emitted weight x random clustering (10% records absent) x supplied predictions (none / random subset with duplicates / all; 15% with hand-"
         "reversed rows); + source-dataset names that are prefixes of one another. For EVERY pair of existing records all five entry points are joined and compared; duckdb+sqlite. "
+        "Layouts/argument forms (audit): input tables with permuted column orders, ONE pre-concatenated table with its own source_dataset; empty-string values; new records as frame / "
+        "list of dicts / registered table name, with ids colliding with existing records (searching for a record that is in the data), lacking unique_id and/or source_dataset (1-2 "
+        "records; also in compare_two_records), carrying tf_* fields (all / some TF columns); find_matches rules as str / dict / creator, a single rule bare; thresholds 0 / 0.0 / -0.0 / "
+        "int / omitted (default -4); realtime settings as dict / SettingsCreator / Path / str path, use_sql_from_cache on/off, dict records, the same settings object for the linker, "
+        "realtime and the other dialect; include_found_by_blocking_rules with rules in the settings (both entry points); df_clusters with str ids / all input columns in any order; "
+        "missing edges with threshold_match_weight (0, w+-0.5) / threshold_match_probability (0, 0.5, p); a failed find_matches call followed by predict(). "
         "non-trivial = at least 2 existing records; distinct = hash of the whole case."
     )
     ctx.assumptions = [
@@ -1001,7 +1404,8 @@ def run(ctx: core.Ctx):
         "floats: entry points compared with one another and with the Float model at relative 1e-9, with the closed-form oracle at 1e-7; pairs within 1e-9 of a threshold (but not bit-equal to it) are excepted",
         "a threshold bit-equal to an emitted weight must exclude that pair only when its decimal literal has <= 15 significant digits (DuckDB converts longer DECIMAL literals to DOUBLE with an error of 1 ulp: observed); the exact-weights family (prior 1/2, m/u powers of two) provides such thresholds",
         "supplied predictions are rows of predict() (subset, duplicates allowed); hand-reversed rows count as supplied too (property: 'absent from the supplied predictions' is about the unordered pair; model and code anti-join on either orientation since fix F23)",
-        "TF lookups have one row per value; cluster ids are not NULL; new records carry unique ids distinct from existing ones",
+        "TF lookups have one row per value; cluster ids are not NULL; new records that carry ids carry pairwise distinct ones (they may equal ids of existing records); new records lacking unique_id are expected to be returned once per (existing, new) pair like any other",
+        "oracle-only families (not sent to the Lean model, which has no notion of them): records lacking ids, found_by_blocking_rules values, missing-edge thresholds, realtime on the other dialect, new records of find_matches carrying tf_* fields (reference: compare_two_records on the same records; Entry.fmScore models the lookup only)",
         "composite ids are compared as strings by the engine with binary collation (DuckDB/SQLite default)",
     ]
     ctx.lean = core.lean_check(PROP, ctx.thorough)
